@@ -1,6 +1,7 @@
 package main
 
 import (
+	"context"
 	"fmt"
 	"os"
 	"os/exec"
@@ -9,6 +10,7 @@ import (
 	"strconv"
 	"strings"
 	"sync"
+	"time"
 
 	"verifharness/hx"
 )
@@ -120,7 +122,11 @@ func enumerate(s scenario, full bool, emit func(string)) {
 		}
 	}
 	kills("none p", nw)
-	if s.kind == "wf" {
+	// kill points inside the cleanup paths (callback error, panic unwinding): every scenario in the thorough tier, the
+	// multi-chunk ones and the special destination kinds in the quick tier
+	faultPathKills := full || s.pieces == "1000x200" || strings.HasPrefix(s.pieces, "100,") ||
+		strings.HasPrefix(s.old, "link") || s.old == "dangling" || s.old == "file:0:644"
+	if s.kind == "wf" && faultPathKills {
 		kills("cb:"+strconv.Itoa(np/2)+" p", nw)
 		kills("panic:"+strconv.Itoa(np)+" p", nw)
 	}
@@ -164,6 +170,12 @@ func scenarios(full bool) []scenario {
 		scenario{"file:70000:600", "22", "644", "wf", strconv.Itoa(b) + "," + strconv.Itoa(b+1)},
 		scenario{"file:70000:600", "22", "644", "wf", "99990," + strconv.Itoa(b+1)},
 		scenario{"absent", "22", "644", "wf", "100," + strconv.Itoa(b-100) + ",1,5"}, // < N, exactly N, > N handed over
+		// the destination is an empty file, a symbolic link to a file, a dangling symbolic link
+		scenario{"file:0:644", "22", "600", "wf", "1"},
+		scenario{"link:70000:600", "22", "644", "wf", "1000x70"},
+		scenario{"dangling", "22", "644", "wf", strconv.Itoa(b + 1)},
+		scenario{"link:5:644", "27", "640", "commit", "10,70000"},
+		scenario{"dangling", "22", "644", "abort", "10"},
 	)
 	out = append(out,
 		scenario{"file:5:644", "77", "666", "wf", "1000x70"},
@@ -364,8 +376,10 @@ type sysInfo struct {
 }
 
 var (
-	sysOnce sync.Once
-	sys     sysInfo
+	sysOnce        sync.Once
+	sys            sysInfo
+	sysMu          sync.Mutex
+	straceTimeouts int
 )
 
 func self() string {
@@ -384,9 +398,23 @@ func runStrace(dir, dst string, s scenario, cbFail int, cbMode string, injects [
 		args = append(args, "-e", "inject="+in)
 	}
 	args = append(args, "-o", tf, self(), "child", s.umask, s.mode, dst, s.kind, s.pieces, strconv.Itoa(cbFail), cbMode)
-	cmd := exec.Command("strace", args...)
+	sysMu.Lock()
+	tooMany := straceTimeouts >= 3
+	sysMu.Unlock()
+	if tooMany {
+		return "", nil, "timeout-skipped"
+	}
+	ctx, cancel := context.WithTimeout(context.Background(), 30*time.Second)
+	defer cancel()
+	cmd := exec.CommandContext(ctx, "strace", args...)
 	cmd.Env = append(os.Environ(), "GODEBUG=asyncpreemptoff=1")
 	out, runErr := cmd.Output()
+	if ctx.Err() != nil { // a child that hangs costs 30 s once; after three the stream stops trying
+		sysMu.Lock()
+		straceTimeouts++
+		sysMu.Unlock()
+		return "", nil, "timeout"
+	}
 	text, err := os.ReadFile(tf)
 	if err != nil {
 		return "", nil, "no-trace-file"
@@ -408,7 +436,7 @@ func learn() {
 		offset: map[string]int{}}
 	dir, dst := setup(oldSpec{kind: "absent"})
 	_, calls, e := runStrace(dir, dst, scenario{"absent", "22", "644", "baseline", "-"}, -1, "p", nil)
-	os.RemoveAll(dir)
+	cleanup(dir)
 	if e != "" || len(calls) == 0 {
 		sys.err = "strace-unusable"
 		return
@@ -509,14 +537,14 @@ func (traceArea) Run(line string) string {
 func runOnce(f []string, s scenario, old oldSpec, um, mode uint32, cbFail int, cbMode string, injects []string, wantInj string, wantIdx int,
 	killKind string, killIdx int) (string, bool) {
 	dir, dst := setup(old)
-	defer os.RemoveAll(dir)
+	defer cleanup(dir)
 	oldState := fileState(dst)
 	newState := stateOf(genBytes(0, sum(parsePieces(s.pieces)), seedNew), mode&^um)
 	rd := startReader(dst, oldState, newState)
 	res, calls, e := runStrace(dir, dst, s, cbFail, cbMode, injects)
 	rs := rd.finish()
 	if e != "" {
-		return "strace:" + e, true
+		return "strace:" + e, !strings.HasPrefix(e, "timeout")
 	}
 	var seq []string
 	idx := map[string]int{}
@@ -555,7 +583,7 @@ func runOnce(f []string, s scenario, old oldSpec, um, mode uint32, cbFail int, c
 		if res == "" {
 			res = "none"
 		}
-		return fmt.Sprintf("seq=%s res=%s dst=%s tmp=%s reader=%s%s", sq, res, fileState(dst), t, rs, note), note != ""
+		return fmt.Sprintf("seq=%s res=%s dst=%s tmp=%s reader=%s%s%s", sq, res, fileState(dst), t, rs, note, targetCheck(dir, old)), note != ""
 	}
-	return fmt.Sprintf("seq=%s dst=%s tmp=%s reader=%s%s", sq, fileState(dst), t, rs, note), note != ""
+	return fmt.Sprintf("seq=%s dst=%s tmp=%s reader=%s%s%s", sq, fileState(dst), t, rs, note, targetCheck(dir, old)), note != ""
 }
